@@ -45,6 +45,10 @@ type reproVariant struct {
 type reproCase struct {
 	Img      ImgCase        `json:"img"`
 	Variants []reproVariant `json:"variants"`
+	// declared inputs shared by every variant: SOURCE_DATE_EPOCH in the environment (0 = unset; the build date then
+	// comes from the environment, not from an option) and further keyring entries
+	SDE       int64 `json:"sde,omitempty"`
+	ExtraKeys int   `json:"extra_keys,omitempty"`
 }
 
 type reproSuite struct{}
@@ -65,6 +69,12 @@ func (reproSuite) Name() string { return "repro" }
 
 func (reproSuite) Gen(r *Rng, i int, tier string) any {
 	c := reproCase{Img: genImageCase(r)}
+	if r.Chance(40) {
+		c.SDE = 1600000000 + int64(r.Intn(100000000))
+	}
+	if r.Chance(35) {
+		c.ExtraKeys = 7
+	}
 	http := r.Chance(50)
 	tarball := r.Chance(25)
 	base := reproVariant{Name: "base", GOMAXPROCS: 1, TZ: "UTC", Umask: 0o022, Cwd: "cwd-a", Tmp: "tmp-a", Cache: "none", HTTP: http, Tarball: tarball, Reps: 1}
@@ -134,6 +144,9 @@ func (reproSuite) Run(raw json.RawMessage) []Step {
 		cmd.Dir = cwd
 		env := []string{"TMPDIR=" + tmp, "HOME=" + filepath.Join(tmp, "home"), "XDG_CACHE_HOME=" + filepath.Join(tmp, "xdg"),
 			"TZ=" + v.TZ, fmt.Sprintf("GOMAXPROCS=%d", v.GOMAXPROCS), "PATH=" + os.Getenv("PATH")}
+		if c.SDE != 0 {
+			env = append(env, fmt.Sprintf("SOURCE_DATE_EPOCH=%d", c.SDE))
+		}
 		if v.EnvNoise {
 			env = append(env, "LANG=tr_TR.UTF-8", "LC_ALL=tr_TR.UTF-8", "USER=someone", "HOSTNAME=elsewhere", "FOO=bar", "GOFLAGS=")
 		}
@@ -287,7 +300,7 @@ func reproChild(args []string) {
 	repo := loadRepoDir(repoDir)
 	var last map[string]string
 	build1 := func(cache string) E2EOut {
-		o := E2EOpts{Archs: c.Img.Archs, SBOM: c.Img.SBOM, Tarball: v.Tarball}
+		o := E2EOpts{Archs: c.Img.Archs, SBOM: c.Img.SBOM, Tarball: v.Tarball, ExtraKeys: c.ExtraKeys}
 		if v.HTTP {
 			o.HTTP = &SynthTransport{Repo: repo}
 			if v.SlowArch != "" {
